@@ -8,12 +8,12 @@ GUARD = "isographlabs_isograph_verif"
 # id -> (category, technique, level text, level note, design_ref)
 CHECKS = {
  "C01": ("exploration", "stateful model-based property testing (proptest histories, interpreter + never-memoizing reference model; bodies written once, generic over pico and the model)",
-         "Histories of <=40 operations over 3 keyed sources, a singleton and a tracked map with 26 memoized function shapes (every parameter kind, depth 3, backdating, control-flow-dependent dependencies, tracked/untracked readers, intern_value / intern_ref, retain / GC with LRU capacity 1..3) run against pico and a plain-Rust model; every call / lookup value must equal a from-scratch evaluation. 400k histories quick, 3M thorough. Sampling, not proof.",
+         "Histories of <=40 operations over 3 keyed sources, a singleton and a tracked map with 30 memoized function shapes (every parameter kind, depth 3, backdating, control-flow-dependent dependencies, tracked/untracked readers, intern_value / intern_ref, retain / GC with LRU capacity 1..3) run against pico and a plain-Rust model; every call / lookup value must equal a from-scratch evaluation. 400k histories quick, 3M thorough. Sampling, not proof.",
          "Documented pico preconditions are respected by construction (no write during a call, SourceId arguments only while the source exists); handle lookups only inside a write-free window; the open C03 intern_ref finding is excluded by construction.", "5/C01"),
  "C02": ("exploration", "stateful property testing with execution counters judged by an early-cut-off reference model",
          "Same histories as C01; per-(function, arguments) body executions are judged by a model that allows a run only if the node never ran, was collected per the root model, or a recorded direct dependency changed since its last run (this implies the equal-value-write, unrelated-write and backdating clauses). 300k histories quick, 3M thorough.",
          "A->B->A value flips count as changes; under-execution is C01's business; after a write-free GC re-executions are attributed to C03.", "5/C02"),
- "C03": ("exploration", "stateful model-based property testing (root / reachability model, execution counters, handle lookups) + replay of selected histories under Miri",
+ "C03": ("exploration", "stateful model-based property testing (root / reachability model, execution counters, handle lookups) under process supervision (a pico-induced abort of the worker process is reported with the in-flight history) + replay of selected histories under Miri",
          "GC-heavy histories (capacity 1..3, retain / clear / never_garbage_collect, intern_ref re-interning) against a root model: the closure of retained + LRU roots is served without re-execution, live handles read their original values, no pico panic; selected histories are replayed under Miri (use-after-free, uninitialised reads). 60k native + 8 Miri histories quick, 1.2M + 200 thorough.",
          "Lookups / retains only for handles with a stated contract (obtained after the last write from a GC root closure); Miri runs Stacked Borrows with isolation disabled and leaks ignored; the open finding intern-ref-pointer-outlives-owner is tolerated by signature and excluded by construction.", "5/C03"),
  "C04": ("exploration", "property-based testing over a seed-generated Rust program with many same-signature #[memo] functions (compiled per seed) + exhaustive syn scan of the repository's #[memo] signatures",
